@@ -69,6 +69,8 @@ def worker(arg):
                 same = R.shape == P.shape and all(a == b for a, b in zip(R.reshape(-1), P.reshape(-1)))
                 out["results"].append(_res(f"integrate:checkpoint_lengths={cl} returns the recordings of the plain call[{lab}]", same,
                                            "" if same else f"shape {R.shape} vs {P.shape}"))
+                if not same:
+                    out["results"][-1]["model"] = {"scenario": e4.scenario_dict(sc), "checkpoint_lengths": list(cl)}
                 out["results"].append(_res(f"integrate:checkpoint_lengths={cl} frame - module untouched[{lab}]", not o["writes"] and o["frame_ok"], str(o["writes"])))
             # repetition on ONE module object: second call identical, module untouched in between
             cell, ds, dc = sc.build()
@@ -178,6 +180,7 @@ def main(tier):
     outs = run_units("jxverif.props.C06", "worker", chunks + [("quick", -1, 0, c) for c in CANARIES])
     outs_p = run_units("jxverif.props.C06", "purity_worker", [tier])
     nl = 0
+    n_native = 0
     for o in outs[:len(chunks)] + outs_p:
         if o[0] != "ok" or o[1]["error"]:
             ck.error(str(o[1] if o[0] != "ok" else o[1]["error"])[:800])
@@ -190,7 +193,12 @@ def main(tier):
         for r in o["results"]:
             ck.add(r)
             if r["status"] == "refuted":
-                ck.violation(r["name"], {"solver": r["backend"], "solver_output": r["detail"], "kind": "c06"}, reproduced=False)
+                rp = {"reproduced": False}
+                if (r.get("model") or {}).get("scenario") and n_native < 3:
+                    n_native += 1
+                    rp = e4.native_replay(r["model"]["scenario"], checkpoint_lengths=r["model"].get("checkpoint_lengths"))
+                ck.violation(r["name"], {"solver": r["backend"], "solver_output": r["detail"], "kind": "c06", "replay_module": "jxverif.props.C06", "replay": rp, "model": r.get("model", {})},
+                             reproduced=rp.get("reproduced", False))
         ck.extra.setdefault("code_reached", {}).update({k: v for k, v in o.get("reached", {}).items() if k.startswith("jaxley")})
     for can, oc in zip(CANARIES, outs[len(chunks):]):
         ref = oc[0] == "ok" and any(r["status"] != "proved" for r in oc[1]["results"])
@@ -203,3 +211,10 @@ def main(tier):
                   "Module.step etc. uninterpreted in the time-axis part"]
     ck.assumptions += ["'to round-off': the recording TERMS are identical, so results are bit-identical whenever XLA evaluates the same traced program identically"]
     return ck.finish()
+
+
+def replay(p):
+    m = p.get("model") or {}
+    if not m.get("scenario"):
+        return {"reproduced": False, "reason": "no scenario recorded"}
+    return e4.native_replay(m["scenario"], checkpoint_lengths=m.get("checkpoint_lengths"))
